@@ -405,6 +405,8 @@ class Padding(WidgetDecoration[WrappedWidget], typing.Generic[WrappedWidget]):
         if size:
             maxvals = (size[0] - left - right,) + size[1:]
             return self._original_widget.keypress(maxvals, key)
+        if self._width_type == WHSettings.GIVEN:
+            return self._original_widget.keypress((self._width_amount,), key)
         return self._original_widget.keypress((), key)
 
     def get_cursor_coords(self, size: tuple[()] | tuple[int] | tuple[int, int]) -> tuple[int, int] | None:
@@ -417,6 +419,8 @@ class Padding(WidgetDecoration[WrappedWidget], typing.Generic[WrappedWidget]):
             maxvals = (size[0] - left - right,) + size[1:]
             if maxvals[0] == 0:
                 return None
+        elif self._width_type == WHSettings.GIVEN:
+            maxvals = (self._width_amount,)
         else:
             maxvals = ()
 
@@ -445,7 +449,10 @@ class Padding(WidgetDecoration[WrappedWidget], typing.Generic[WrappedWidget]):
             maxvals = (maxcol - left - right,) + size[1:]
         else:
             maxcol = self.pack((), True)[0]
-            maxvals = ()
+            if self._width_type == WHSettings.GIVEN:
+                maxvals = (self._width_amount,)
+            else:
+                maxvals = ()
 
         if isinstance(x, int):
             if x < left:
@@ -475,6 +482,8 @@ class Padding(WidgetDecoration[WrappedWidget], typing.Generic[WrappedWidget]):
             if col < left or col >= maxcol - right:
                 return False
             maxvals = (maxcol - left - right,) + size[1:]
+        elif self._width_type == WHSettings.GIVEN:
+            maxvals = (self._width_amount,)
         else:
             maxvals = ()
 
@@ -488,6 +497,8 @@ class Padding(WidgetDecoration[WrappedWidget], typing.Generic[WrappedWidget]):
         left, right = self.padding_values(size, True)
         if size:
             maxvals = (size[0] - left - right,) + size[1:]
+        elif self._width_type == WHSettings.GIVEN:
+            maxvals = (self._width_amount,)
         else:
             maxvals = ()
 
